@@ -44,6 +44,9 @@ def main(argv):
         elif argv[i] == '--replay':
             replay = argv[i + 1]
             i += 2
+        elif argv[i] == '--no-evidence':
+            os.environ['VERIF_NO_EVIDENCE'] = '1'
+            i += 1
         else:
             i += 1
     if tier not in ('quick', 'thorough'):
